@@ -17,7 +17,6 @@ import copy
 import json
 import os
 import signal
-import tempfile
 from enum import Enum
 from typing import Any, Dict, List, Optional, Set, Tuple
 
@@ -1563,7 +1562,17 @@ def run(ctx: Ctx) -> None:
 
 
 def search(ctx: Ctx, broken: List[str]) -> None:
-    run(ctx)
+    # failing-input search after a broken obligation: the same oracles on a fresh seed with ~3x the quick budget
+    # (the search context is created with the thorough tier; scale it down so a failing run still ends in minutes)
+    old = os.environ.get("VERIF_SCALE")
+    os.environ["VERIF_SCALE"] = str(0.15 * float(old or 1))
+    try:
+        run(ctx)
+    finally:
+        if old is None:
+            os.environ.pop("VERIF_SCALE", None)
+        else:
+            os.environ["VERIF_SCALE"] = old
 
 
 def replay(ctx: Ctx, body: Dict[str, Any]) -> None:
